@@ -804,7 +804,7 @@ func main() {
 		run([]string{"a"}, witness, nil)
 		run(nil, witness, nil)
 		c.Count("fixed-witnesses")
-		for i := 0; i < c.Size(3500, 60000); i++ {
+		for i := 0; i < c.Size(2500, 60000); i++ {
 			budget := 3 + r.Intn(10)
 			tree := genTree(r, 0, &budget)
 			var nodes []*tnode
